@@ -173,7 +173,7 @@ func init() {
 			}
 			return []V{VL(VS("ok"), VS(env.Head.Digest.Value), VBytes(out))}
 		}
-		return []V{VErr("unknown-c04-op")}
+		return c04normOp(a)
 	})
 	// examples <repo>: prints every example input (json/yaml) as a wire line "x<path> x<json>"
 	commands["examples"] = func(args []string) int {
